@@ -67,9 +67,9 @@ type upSource struct {
 	subs    []*upSub
 	pre     [][]Tok
 	ctxs    []string // the context markers of each subscription, in order (C09)
-	yield   int    // concurrent variants: Gosched this many times inside Subscribe (widens races)
-	inside  func() // nested events: run once, inside the next Subscribe, after the prefix
-	strict  bool   // concurrent kinds: never push to a subscription that is over
+	yield   int      // concurrent variants: Gosched this many times inside Subscribe (widens races)
+	inside  func()   // nested events: run once, inside the next Subscribe, after the prefix
+	strict  bool     // concurrent kinds: never push to a subscription that is over
 }
 
 func (p *upSource) Observable() ro.Observable[int] {
@@ -633,10 +633,10 @@ func innerSeqs(n int) []string {
 var shareCorpus = [][4]string{
 	// api, conn, flags, pre, ev  (pre folded into the 4th field as pre|ev)
 	{"share", "publish", "ECZ", "-|S,S,N1,N2,U0,N3,U1,S,N4"},
-	{"share", "publish", "ECZ", "N1,N2,C|S,S"},             // Share over Just(1,2): was the nil dereference (fix a510ca9)
-	{"config", "publish", "ECZ", "C;-|S,S,U1,N1"},          // was the refCount leak after the nil dereference
-	{"sharereplay2", "replay2", "E", "-|S,N1,N2,N3,S,C,S"}, // ShareReplay(2)
-	{"sharereplayZ1", "replay1", "EZ", "-|S,N1,U0,S,N2"},   // ShareReplayWithConfig
+	{"share", "publish", "ECZ", "N1,N2,C|S,S"},              // Share over Just(1,2): was the nil dereference (fix a510ca9)
+	{"config", "publish", "ECZ", "C;-|S,S,U1,N1"},           // was the refCount leak after the nil dereference
+	{"sharereplay2", "replay2", "E", "-|S,N1,N2,N3,S,C,S"},  // ShareReplay(2)
+	{"sharereplayZ1", "replay1", "EZ", "-|S,N1,U0,S,N2"},    // ShareReplayWithConfig
 	{"sharereplay-1", "replayU", "E", "-|S,N1,N2,N3,S,C,S"}, // ShareReplay(ReplaySubjectUnlimitedBufferSize)
 	{"config", "behavior", "Z", "-|S,N1,S,E2,S"},
 	{"config", "replayU", "-", "-|S,N1,N2,C,S,S"},
